@@ -646,7 +646,7 @@ func (c *Ctx) reachOutsideArm(arm byte) map[*ssa.Function]bool {
 }
 
 func (c *Ctx) reachOutsideArm0(arm byte) map[*ssa.Function]bool {
-	hc := c.P.Method("wire", "Session", "handleCommand")
+	hc, _ := c.dispatcher()
 	skip := map[*ssa.BasicBlock]bool{}
 	if hc != nil {
 		for _, p := range hc.Params {
@@ -690,7 +690,7 @@ func (c *Ctx) reachOutsideArm0(arm byte) map[*ssa.Function]bool {
 // vice versa): that would remove the portal that happens to share the statement's name.
 func (c *Ctx) c07CloseKinds() {
 	R := c.R
-	hc := c.P.Method("wire", "Session", "handleCommand")
+	hc, _ := c.dispatcher()
 	if hc == nil {
 		return
 	}
